@@ -105,7 +105,7 @@ hist_check!(
     C15,
     "C15",
     Focus::C15,
-    |g: &GenCfg| DmlCfg { tables: 2, pk: true, composite_pk: true, uniques: true, user_indexes: true, unique_indexes: true, replace: !(g.avoid_known && g.known_open.iter().any(|k| k.ends_with(".after_replace"))), odku: !(g.avoid_known && g.known_open.iter().any(|k| k.ends_with(".after_upsert"))), ..base() },
+    |g: &GenCfg| DmlCfg { tables: 2, pk: true, composite_pk: true, uniques: true, user_indexes: true, unique_indexes: true, fks: true, replace: !(g.avoid_known && g.known_open.iter().any(|k| k.ends_with(".after_replace"))), odku: !(g.avoid_known && g.known_open.iter().any(|k| k.ends_with(".after_upsert"))), ..base() },
     250_000,
     6_000_000,
     14,
